@@ -19,6 +19,15 @@ CLAIMED = {
   "deterministic simulation: seeded schedules with a preemption point inside cond_wait before enqueueing, spurious wake-ups and stalls; deadlock detection with a wait-for graph and step-budget liveness",
   "Seeded search over schedules of writer, readers and a refuse-writes toggler; a hang is detected at the instant every thread is blocked (or as a step budget overrun) and judged against the reference model: violation only if a refusal has returned or every reader has drained.",
   "Trusts the kernel's model of pthread_cond_wait (atomic release-and-enqueue, broadcast wakes all current waiters, spurious wake-ups allowed). Liveness is bounded: 400000 scheduling steps."),
+
+ "C11": ("fault_enumeration", "DESIGN.md §4 C11",
+  "seeded HAL call histories against a scripted fault-injecting mock driver (every driver response is part of the plan); the mock frees the device inside close so ASan reports any touch-after-close",
+  "Seeded search over call histories on camera and storage devices with every status/state code the driver can answer attached to the call that receives it; the mock driver judges the legality of what it is asked (stop without start, frame/append outside running, close count) and the HAL-reported state is compared with what the driver's responses imply. Single-threaded: the faults are the driver's responses.",
+  "Driver function pointers are non-NULL; the harness itself never uses a device after close returned. The real device manager and loader are used to reach the mock (dl seam)."),
+ "C13": ("exploration", "DESIGN.md §4 C13",
+  "seeded init/set/copy/destroy histories on three live objects against a plain value model, with an allocator seam tracking every block of the module and ASan",
+  "Seeded search over call histories with arbitrary strings (NULL, empty, long, unterminated) and 0..4 dimensions; after every call all fields are compared with the model, no heap block may be reachable from two objects, every live block must be reachable, strings must be terminated, and at the end nothing may be live. No schedule/clock is involved (stated in DESIGN §5): the simulator contributes the allocator seam, history machinery, shrinking and replay.",
+  "Allocation failure is not injected. Dimension names are NUL-terminated as set_dimension documents. init is applied to fresh storage only."),
 }
 
 NOT_YET = {
